@@ -100,6 +100,12 @@ func journalBegin(st *mc.Stats, b []byte, conv int, via string) int {
 	journal[o+6] = 0
 	if via == "load" {
 		journal[o+5] = 1
+	} else if isFileVia(via) {
+		for i, p := range ClosePatterns {
+			if fileVia(p) == via {
+				journal[o+5] = byte(2 + i)
+			}
+		}
 	}
 	copy(journal[o+8:], b[:n])
 	binary.LittleEndian.PutUint32(journal[o:], uint32(n)+1) // length+1; 0 = slot idle
@@ -137,6 +143,8 @@ func inFlight(j []byte) []In {
 		via := "ar"
 		if j[o+5] == 1 {
 			via = "load"
+		} else if k := int(j[o+5]); k >= 2 && k-2 < len(ClosePatterns) {
+			via = fileVia(ClosePatterns[k-2])
 		}
 		if j[o+6] == 1 { // a recipe
 			var in In
